@@ -104,7 +104,7 @@ extern void CHECK_EQUAL_C_MEMCMP_LOCATION(const void* expected, const void* actu
     UtestShell::getCurrent()->assertBinaryEqual(expected, actual, size, text, fileName, lineNumber, UtestShell::getCurrentTestTerminatorWithoutExceptions());
 }
 
-extern void CHECK_EQUAL_C_BITS_LOCATION(unsigned int expected, unsigned int actual, unsigned int mask, size_t size, const char* text, const char* fileName, size_t lineNumber)
+extern void CHECK_EQUAL_C_BITS_LOCATION(unsigned long expected, unsigned long actual, unsigned long mask, size_t size, const char* text, const char* fileName, size_t lineNumber)
 {
     UtestShell::getCurrent()->assertBitsEqual(expected, actual, mask, size, text, fileName, lineNumber, UtestShell::getCurrentTestTerminatorWithoutExceptions());
 }
